@@ -17,6 +17,14 @@ def rapid(name, test, quick, thorough, **kw):
     return d
 
 CHECKS = {
+    "C13": {
+        "level": "exploration",
+        "phases": [
+            rapid("prop", "TestProp",
+                  {"checks": 96, "shards": 12, "timeout": 600, "shrinktime": "30s"},
+                  {"checks": 3200, "shards": 16, "timeout": 3000, "shrinktime": "60s"}, race=True),
+        ],
+    },
     "C15": {
         "level": "exploration",
         "phases": [
